@@ -318,3 +318,63 @@ fn c16_message_cast() {
     }
     kani::cover!(true, "REACH end of harness");
 }
+
+
+/// cloning a message: the copy carries an equal value and the same length - or, if the body
+/// cannot be cloned, there is no copy at all (never a copy that silently lost its body)
+#[kani::proof]
+#[kani::unwind(3)]
+#[kani::stub(std::sync::Arc::drop_slow, arc_drop_slow_noop)]
+fn c16_message_try_clone_keeps_body() {
+    let x: u32 = kani::any();
+    let clonable: bool = kani::any();
+    let mut m = msg_with(0u8);
+    if clonable {
+        m.set_content(B(x));
+    } else {
+        unsafe {
+            LIVE += 1;
+        }
+        m.set_content_non_clonable(NC(x));
+    }
+    assert!(m.length() == 68, "C16 message length = 64 + body length");
+    let c = m.try_clone();
+    match &c {
+        Some(c) => {
+            assert!(c.length() == m.length(), "C16 a cloned message has the same length as the original (the size channels charge for)");
+            assert!(clonable, "C16 a message whose body cannot be cloned has no clone");
+            assert!(c.try_content::<B>() == Some(&B(x)), "C16 what is cloned equals the value put in");
+        }
+        None => assert!(!clonable, "C16 a clonable message can be cloned"),
+    }
+    assert!(m.length() == 68 && (clonable || m.try_content::<NC>().map(|v| v.0) == Some(x)), "C16 cloning leaves the original intact");
+    kani::cover!(!clonable, "REACH non-clonable body");
+    kani::cover!(true, "REACH end of harness");
+    std::mem::forget((m, c));
+}
+
+
+/// VecDeque body whose ring buffer has wrapped (elements in both slices): length = 4 per u32
+#[kani::proof]
+#[kani::unwind(8)]
+fn c16_message_length_wrapped_deque() {
+    use std::collections::VecDeque;
+    let mut d: VecDeque<u32> = VecDeque::with_capacity(4);
+    d.push_back(kani::any());
+    d.push_back(kani::any());
+    d.push_back(kani::any());
+    d.push_back(kani::any());
+    let _ = d.pop_front();
+    let _ = d.pop_front();
+    d.push_back(kani::any());
+    let extra: bool = kani::any();
+    if extra {
+        d.push_back(kani::any());
+    }
+    let n = d.len();
+    assert!(d.as_slices().1.len() > 0, "C16 harness state: the deque is physically wrapped");
+    assert!(d.byte_len() == 4 * n, "C16 body length of a collection is the sum over all its elements (wrapped VecDeque)");
+    assert!(msg_with(d).length() == 64 + 4 * n, "C16 message length = 64 + body length (wrapped VecDeque)");
+    kani::cover!(extra, "REACH four elements, two in each slice");
+    kani::cover!(true, "REACH end of harness");
+}
